@@ -667,28 +667,22 @@ def stack_slices(fn):
 
 def apply_consts(tier):
     fan, stages, batch = (2, 3, 2) if tier == "quick" else (3, 3, 3)
-    return {"C": 2, "MaxFan": fan, "MaxStages": stages, "MaxBatch": batch, "CotStages": 2 if tier == "quick" else 3, "Muts": "{0}"}
+    return {"C": 2, "MaxFan": fan, "MaxStages": stages, "MaxBatch": batch, "CotStages": 2 if tier == "quick" else 3, "Muts": "{0,1,2}"}
 
 
 def apply_generate(tier, workers):
+    """one TLC run: the faithful model (mut = 0: invariants, cases emitted) and the two mutated models (negative controls of
+    Routing -- 1: slices that do not advance, 2: the classical Jacobian of tape 0 for every tape -- which must produce
+    results that differ from the reference terms)"""
     g = lib.run_tlc("PipelineApplyGen", lib.cfg(constants=apply_consts(tier), invariants=["Routing", "SlicesCover", "Shape"], constraints=["Emit"]),
                     lib.workdir(PID, "apply") / "gen", timeout=3000, workers=workers)
     if g.invariant_violated:
         raise lib.MachineryError(f"the application model violates {g.invariant_violated}")
     lib.require_ok(g, "PipelineApplyGen")
+    g.caught = {k: sum(1 for t in g.tuples if t[0] == "MUT" and t[1] == k and t[2] == "caught") for k in (1, 2)}
+    if not all(g.caught.values()):
+        raise lib.MachineryError(f"a mutated application model still satisfies Routing (vacuous invariant): {g.caught}")
     return g
-
-
-def apply_mutant(tier):
-    """negative controls of the invariant: each mutated algorithm (1: slices that do not advance, 2: the classical Jacobian of
-    tape 0 for every tape) must produce results that differ from the reference terms"""
-    m = lib.run_tlc("PipelineApplyGen", lib.cfg(constants=dict(apply_consts(tier), MaxStages=2, MaxBatch=2, CotStages=2, Muts="{1,2}"),
-                                                constraints=["Emit"]), lib.workdir(PID, "apply") / "mut", timeout=600, workers=2)
-    lib.require_ok(m, "PipelineApplyGen (mutated models)")
-    m.caught = {k: sum(1 for t in m.tuples if t[0] == "MUT" and t[1] == k and t[2] == "caught") for k in (1, 2)}
-    if not all(m.caught.values()):
-        raise lib.MachineryError(f"a mutated application model still satisfies Routing (vacuous invariant): {m.caught}")
-    return m
 
 
 def run_apply(tier, seed, cov, viol, g, m):
@@ -858,7 +852,7 @@ def run_apply(tier, seed, cov, viol, g, m):
     cov["apply_model"] = {"module": "PipelineApply", "C": C, "MaxFan": maxfan, "MaxStages": stages, "MaxBatch": batch, "states": g.distinct,
                           "invariants": ["Routing", "SlicesCover", "Shape"], "CotStages": consts["CotStages"], "mutants_caught": m.caught,
                           "wall_s": round(g.wall_s, 1)}
-    return {"states": g.distinct + m.distinct, "trans": g.generated + m.generated, "neg": neg, "cases": len(cases), "traces": traces,
+    return {"states": g.distinct, "trans": g.generated, "neg": neg, "cases": len(cases), "traces": traces,
             "nontriv": nontriv, "samples": samples[:1] + cot_samples}
 
 
@@ -1117,9 +1111,9 @@ def _run(tier, seed):
     jobs = edit_plan(tier)
     with ThreadPoolExecutor(max_workers=6) as ex:
         f_g = ex.submit(apply_generate, tier, max(2, W // 2))
-        f_m = ex.submit(apply_mutant, tier)
         f_e = [ex.submit(edit_generate, j, seed, max(2, W // 2)) for j in jobs]
-        g, m, eres = f_g.result(), f_m.result(), [f.result() for f in f_e]
+        g, eres = f_g.result(), [f.result() for f in f_e]
+        m = g
     wall["tlc_models_and_generators"] = round(time.time() - t0, 1)
     # ---- (C) spec -> code
     t0 = time.time()
